@@ -649,7 +649,12 @@ func (s *StateDB) Commit(deleteEmptyObjects bool) (root common.Hash, err error) 
 			// Update the object in the main account trie.
 			s.updateStateObject(stateObject)
 		}
-		delete(s.stateObjectsDirty, addr)
+		if isDirty {
+			// The object is clean again: re-arm its dirty callback, which fires only
+			// once, or changes made to it after this commit would never be written.
+			delete(s.stateObjectsDirty, addr)
+			stateObject.onDirty = s.MarkStateObjectDirty
+		}
 	}
 	// Write trie changes.
 	root, err = s.trie.Commit(func(leaf []byte, parent common.Hash) error {
